@@ -6,6 +6,7 @@
      json_amt  u|s pico_opt|xmr_opt none|<a>     -> OK <hex> <none | a' | ERR>
      json_amt  u|s pico_vec|xmr_vec <a>*         -> OK <hex> <n a'1 .. a'n | ERR>
      json_addr_bad <utf8 hex>                    -> ERR | OK <address tokens>   Address from the JSON string with that content
+     json_str  <utf8 hex>                        -> OK <hex of the JSON text of that string>   (the escape table of the printer)
    T: the type names of OpsCodec plus key ctkey ecdh mgsig clsag rct_base rct_prunable rct_sig index address.
    Value tokens: Show.v; index = `major minor`; address = `net type spend view` as in addr_fmt.
    JSON tokens (prefix form): n | t | f | i<decimal> | s<hex of the bytes or -> | a<count> elems.. | o<count> (s<hex key> value).. *)
@@ -235,6 +236,11 @@ Definition ops_json (op : string) (args : list string) : option string :=
     match args with
     | t :: kind :: rest =>
         match signed_flag t with Some sg => json_amt sg kind rest | None => None end
+    | _ => None
+    end
+  else if String.eqb op "json_str" then
+    match args with
+    | [h] => match parse_hex h with Some s => Some ("OK " ++ show_json_text (JStr s)) | None => None end
     | _ => None
     end
   else if String.eqb op "json_addr_bad" then
